@@ -122,6 +122,10 @@ def targeted_calls(ctx):
                   'Seperable Impulse Response Fresnel', 'Incoherent Angular Spectrum', 'Fraunhofer'):
         add('propagate_beam/' + ptype, lambda ptype=ptype: LW.propagate_beam(fld, 2 * np.pi / 0.5, 1.0, 1.0, 0.5, propagation_type=ptype,
                                                                               zero_padding=zp, samples=smp))
+    for zpc in ([False, False, False], [True, False, False], [False, True, False], [True, True, True]):
+        for ptype in ('Angular Spectrum', 'Transfer Function Fresnel'):
+            add('propagate_beam/%s/padding %s' % (ptype, zpc), lambda ptype=ptype, zpc=zpc: LW.propagate_beam(fld, 2 * np.pi / 0.5, 1.0, 1.0, 0.5, propagation_type=ptype,
+                                                                                                                 zero_padding=zpc))
     nf = np.random.rand(8, 8) + 0j
     for ptype in ('Angular Spectrum', 'Bandlimited Angular Spectrum', 'Transfer Function Fresnel', 'Impulse Response Fresnel', 'Fraunhofer'):
         add('np.propagate_beam/' + ptype, lambda ptype=ptype: NW.propagate_beam(nf, 2 * np.pi / 0.5, 1.0, 1.0, 0.5, ptype))
@@ -340,6 +344,9 @@ def run(ctx):
     for q, what in sorted(probe.layout_dependent.items()):
         ctx.violation('%s: %s' % (q, what), {'callable': q, 'how': 'run ./check C20; the probe repeats the call with copies of the arguments whose last two axes are exchanged in memory'},
                       {'fn': q, 'what': 'layout_dependent'})
+    for q, what in sorted(probe.argument_type_dependent.items()):
+        ctx.violation('%s: %s' % (q, what), {'callable': q, 'how': 'run ./check C20; the probe repeats the call with one argument handed over in another ordinary type'},
+                      {'fn': q, 'what': 'argument_type_dependent'})
     for q, what in sorted(probe.result_owned_by_library.items()):
         if q in ALLOWED:
             continue
